@@ -1,4 +1,5 @@
 import Az65.Model.Asm
+import Az65.Model.Effects
 /-
 Model of `Assembler::parse_all` (the statement loop with every directive), `Assembler::assemble`
 and `trace_error`.
@@ -15,7 +16,12 @@ def findArmBody (arms : List IR.Arm) (op : String) : Option IR.Block :=
   | [] => none
   | a :: r => if a.op = op then some a.body else findArmBody r op
 
-def TOP : Nat := 65536
+/-- run a pure core effect -/
+def eff (g : CoreSt → Except Err CoreSt) : AM Unit := do
+  let s ← get
+  match g s.core with
+  | .ok c => set { s with core := c }
+  | .error e => throw e
 
 def modCore (g : CoreSt → CoreSt) : AM Unit := modify fun s => { s with core := g s.core }
 def getCore : AM CoreSt := do pure (← get).core
@@ -46,24 +52,13 @@ def commaLoop (f : Nat) : AM Bool := do
 /-- one `@db` item -/
 def dbItem (f : Nat) : AM Unit := do
   match ← peekF f with
-  | some ⟨.str s, loc⟩ =>
+  | some ⟨.str str, loc⟩ =>
     let _ ← nextF f
-    let bytes := utf8OfChars s.toList
-    let c ← getCore
-    if c.here + bytes.length > TOP then fail .addrOverflow loc
-    modCore fun c => { c.pushAll bytes with here := c.here + bytes.length }
+    eff fun c => Eff.dbStr c (utf8OfChars str.toList) loc
   | _ =>
     let (loc, nodes) ← exprAt f
-    match ← evalAt' nodes loc with
-    | some v =>
-      if u32 v > 255 then fail .range loc
-      let c ← getCore
-      if c.here + 1 > TOP then fail .addrOverflow loc
-      modCore fun c => { c.push (lowByte v) with here := c.here + 1 }
-    | none =>
-      let c ← getCore
-      if c.here + 1 > TOP then fail .addrOverflow loc
-      modCore fun c => { (c.addLink ⟨.byte, loc, c.dataLen, 1, nodes, none⟩).push 0 with here := c.here + 1 }
+    let v ← evalAt' nodes loc
+    eff fun c => Eff.dbVal c v nodes loc
 
 def dbLoop : Nat → AM Unit
   | 0 => do fail .fuel ((← get).loc.getD {})
@@ -74,16 +69,8 @@ def dbLoop : Nat → AM Unit
 def dwItem (f : Nat) : AM Unit := do
   let _ ← peekF f
   let (loc, nodes) ← exprAt f
-  match ← evalAt' nodes loc with
-  | some v =>
-    if u32 v > 65535 then fail .range loc
-    let c ← getCore
-    if c.here + 2 > TOP then fail .addrOverflow loc
-    modCore fun c => { (c.push (u32 v % 256)).push (u32 v / 256 % 256) with here := c.here + 2 }
-  | none =>
-    let c ← getCore
-    if c.here + 2 > TOP then fail .addrOverflow loc
-    modCore fun c => { ((c.addLink ⟨.word, loc, c.dataLen, 2, nodes, none⟩).push 0).push 0 with here := c.here + 2 }
+  let v ← evalAt' nodes loc
+  eff fun c => Eff.dwVal c v nodes loc
 
 def dwLoop : Nat → AM Unit
   | 0 => do fail .fuel ((← get).loc.getD {})
@@ -147,12 +134,6 @@ def metaPairs : Nat → List (String × String) → AM (List (String × String))
       | some t => fail .unexpected t.loc
     | some t => fail .unexpected t.loc
 
-/-- Padding of the struct `@align`: `(alignment - size.rem_euclid(alignment)) % alignment`
-(alignment ≥ 2, so everything stays inside `i32`). -/
-def structPadding (size al : I32) (_loc : Loc) : AM I32 := do
-  let r := size.toInt % al.toInt
-  pure (BitVec.ofInt 32 ((al.toInt - r) % al.toInt))
-
 def structLoop : Nat → String → Loc → I32 → AM I32
   | 0, _, _, _ => do fail .fuel ((← get).loc.getD {})
   | f + 1, sname, sloc, size => do
@@ -177,30 +158,30 @@ def structLoop : Nat → String → Loc → I32 → AM I32
         | none => fail .needsNow loc
         | some al =>
           if al.toInt < 2 then fail .range sloc
-          let pad ← structPadding size al loc
-          structLoop f sname sloc (size + pad)
+          structLoop f sname sloc (size + Eff.structPadding size al)
     | some ⟨.dir "EndStruct", _⟩ => pure size
     | some ⟨.label .global field, loc⟩ =>
       let direct := sname ++ "." ++ field
       if ((← getCore).symtab.get direct).isSome then fail .alreadyDefined loc
       if ← peekedSym f "Colon" then let _ ← nextF f
+      let field (fs : I32) (text : String) : AM I32 := do
+        let s ← get
+        match Eff.structField s.core direct size fs text loc with
+        | .ok (c, size') => set { s with core := c }; pure size'
+        | .error e => throw e
       match ← peekF f with
       | none => eoiErr
       | some ⟨.dir "Db", _⟩ =>
         let _ ← nextF f
-        modCore fun c => c.insertWithMeta direct (.val size) [("@SIZEOF", "1")]
-        structLoop f sname sloc (size + 1)
+        structLoop f sname sloc (← field 1 "1")
       | some ⟨.dir "Dw", _⟩ =>
         let _ ← nextF f
-        modCore fun c => c.insertWithMeta direct (.val size) [("@SIZEOF", "2")]
-        structLoop f sname sloc (size + 2)
+        structLoop f sname sloc (← field 2 "2")
       | some _ =>
         let (eloc, v) ← constExprF f
         match v with
         | none => fail .needsNow eloc
-        | some fs =>
-          modCore fun c => c.insertWithMeta direct (.val size) [("@SIZEOF", toString fs.toInt)]
-          structLoop f sname sloc (size + fs)
+        | some fs => structLoop f sname sloc (← field fs (toString fs.toInt))
     | some t => fail .unexpected t.loc
 
 /-- Open an included file: a lexer over its characters, directory of the file as `cwd`. -/
@@ -218,22 +199,12 @@ def incbinBytes (fe : FileEntry) : List Nat × Bool :=
   | none => (fe.data, false)
   | some k => if k ≤ fe.data.length then (fe.data.take k, true) else (fe.data, false)
 
-def pushBytesChecked (loc : Loc) : List Nat → AM Unit
-  | [] => pure ()
-  | b :: r => do
-    let c ← getCore
-    if c.here + 1 > TOP then fail .addrOverflow loc
-    modCore fun c => { c.push b with here := c.here + 1 }
-    pushBytesChecked loc r
-
 def directive (f : Nat) (name : String) (loc : Loc) (tok : LTok) : AM Unit := do
   match name with
   | "Org" =>
     let _ ← nextF f
     let (eloc, v) ← constExprF f
-    match v with
-    | some v => if u32 v > 65535 then fail .range eloc else modCore fun c => { c with here := u32 v }
-    | none => fail .needsNow eloc
+    eff fun c => Eff.org c v eloc
   | "Echo" =>
     let _ ← nextF f
     match ← peekF f with
@@ -264,9 +235,8 @@ def directive (f : Nat) (name : String) (loc : Loc) (tok : LTok) : AM Unit := do
         | some ⟨.str s, _⟩ => pure (some s)
         | some t => fail .unexpected t.loc
       else pure none
-    match ← evalAt' nodes eloc with
-    | some v => if v = 0 then fail .assertFail eloc
-    | none => modCore fun c => c.addLink ⟨.assert, eloc, 0, 0, nodes, msg⟩
+    let v ← evalAt' nodes eloc
+    eff fun c => Eff.assert c v nodes msg eloc
   | "Defl" | "Defn" =>
     let _ ← nextF f
     let (direct, lloc) ← labelOperand (← peekF f)
@@ -274,56 +244,43 @@ def directive (f : Nat) (name : String) (loc : Loc) (tok : LTok) : AM Unit := do
     if ((← getCore).symtab.get direct).isSome then fail .alreadyDefined lloc
     expectSym f "Comma"
     let (_, nodes) ← exprAt f
-    if name = "Defl" then modCore fun c => c.insert direct (.expr nodes)
-    else modCore fun c => c.insertWithMeta direct (.expr nodes) []
+    eff fun c => Eff.define c (name = "Defl") direct nodes lloc
   | "ReDefl" | "ReDefn" =>
     let _ ← nextF f
     let (direct, _) ← labelOperand (← nextF f)
     expectSym f "Comma"
     let (_, nodes) ← exprAt f
-    if name = "ReDefl" then modCore fun c => c.insert direct (.expr nodes)
-    else modCore fun c => c.insertWithMeta direct (.expr nodes) []
+    modCore fun c => Eff.redefine c (name = "ReDefl") direct nodes
   | "UnDef" =>
     let _ ← nextF f
     let (direct, _) ← labelOperand (← nextF f)
-    modCore fun c => { c with symtab := c.symtab.remove direct }
+    modCore fun c => Eff.undef c direct
   | "Db" =>
     let _ ← nextF f
     match (← get).seg with
-    | .addr =>
-      if (← getCore).here + 1 > TOP then fail .addrOverflow loc
-      modCore fun c => { c with here := c.here + 1 }
+    | .addr => eff fun c => Eff.skip c 1 loc
     | .code => dbLoop f
   | "Dw" =>
     let _ ← nextF f
     match (← get).seg with
-    | .addr =>
-      if (← getCore).here + 2 > TOP then fail .addrOverflow loc
-      modCore fun c => { c with here := c.here + 2 }
+    | .addr => eff fun c => Eff.skip c 2 loc
     | .code => dwLoop f
   | "Ds" =>
     let _ ← nextF f
     let (eloc, v) ← constExprF f
-    match v with
-    | none => fail .needsNow eloc
-    | some sz =>
-      if u32 sz > 65535 then fail .range eloc
-      let size := u32 sz
-      if (← getCore).here + size > TOP then fail .addrOverflow eloc
-      modCore fun c => { c with here := c.here + size }
-      match (← get).seg with
-      | .addr => pure ()
-      | .code =>
-        let fill ← if ← peekedSym f "Comma" then do
-            let _ ← nextF f
-            let (vloc, nodes) ← exprAt f
-            match ← evalAt' nodes vloc with
-            | some v => if u32 v > 255 then fail .range vloc else pure (lowByte v)
-            | none =>
-              modCore fun c => c.addLink ⟨.space, vloc, c.dataLen, size, nodes, none⟩
-              pure 0
-          else pure 0
-        modCore fun c => c.pushAll (List.replicate size fill)
+    let st ← get
+    let size ← match Eff.dsSize st.core v eloc with
+      | .ok (c, size) => set { st with core := c }; pure size
+      | .error e => throw e
+    match (← get).seg with
+    | .addr => pure ()
+    | .code =>
+      if ← peekedSym f "Comma" then
+        let _ ← nextF f
+        let (vloc, nodes) ← exprAt f
+        let fv ← evalAt' nodes vloc
+        eff fun c => Eff.dsFill c size (some fv) nodes vloc
+      else eff fun c => Eff.dsFill c size none [] eloc
   | "Include" =>
     let _ ← nextF f
     match ← nextF f with
@@ -371,7 +328,7 @@ def directive (f : Nat) (name : String) (loc : Loc) (tok : LTok) : AM Unit := do
           | none => fail (.crash "open_read") sloc
           | some fe =>
             let (bytes, faulted) := incbinBytes fe
-            pushBytesChecked sloc bytes
+            eff fun c => Eff.incbin c sloc bytes
             if faulted then fail .fileRead sloc
     | some t => fail .unexpected t.loc
   | "Macro" =>
@@ -407,18 +364,8 @@ def directive (f : Nat) (name : String) (loc : Loc) (tok : LTok) : AM Unit := do
     | none => eoiErr
     | some _ =>
       let (eloc, v) ← constExprF f
-      match v with
-      | none => fail .needsNow eloc
-      | some al =>
-        if al.toInt < 2 then fail .range eloc
-        let a := u32 al
-        let here := (← getCore).here
-        let padding := (a - here % a) % a
-        if padding > 65535 then fail .range eloc
-        if here + padding > TOP then fail .addrOverflow eloc
-        match (← get).seg with
-        | .code => modCore fun c => { c.pushAll (List.replicate padding 0) with here := c.here + padding }
-        | .addr => modCore fun c => { c with here := c.here + padding }
+      let code := (← get).seg = .code
+      eff fun c => Eff.align c code v eloc
   | "Meta" =>
     let _ ← nextF f
     let pairs ← metaPairs f []
@@ -451,8 +398,7 @@ def parseAllF : Nat → AM Unit
     | some ⟨.label kind value, loc⟩ =>
       if kind = .global then modCore fun c => { c with ns := some value }
       let direct ← qualifyOrFail kind value loc
-      if ((← getCore).symtab.get direct).isSome then fail .alreadyDefined loc
-      modCore fun c => c.insert direct (.val (i32OfNat c.here))
+      eff fun c => Eff.label c direct loc
       let _ ← nextF f
       if ← peekedSym f "Colon" then let _ ← nextF f
       parseAllF f
@@ -468,10 +414,8 @@ def parseAllF : Nat → AM Unit
         let oldLen := s.core.dataLen
         (fun st => execArm (opsF f) f body st)
         -- `self.here += (self.data.len() - old_len) as u32` and the top-of-memory test
-        let c ← getCore
-        let here := c.here + (c.dataLen - oldLen)
-        if here > TOP then fail .addrOverflow (← curLoc)
-        modCore fun c => { c with here := here }
+        let l ← curLoc
+        eff fun c => Eff.instrTail c oldLen l
       parseAllF f
     | some t => fail .unexpected t.loc
 
